@@ -665,3 +665,36 @@ Proof.
   intros HI input base sbase Hu Hb Hk. apply statement_all; try assumption.
   apply host_hyp3_model; [exact (idna_out idna HI) | exact Hu].
 Qed.
+
+(* ================= the statement in the shape of C01_statement ================= *)
+(* the ten API strings of a model record as a total function (the getters do not panic on the records the
+   theorem returns) *)
+Definition api_total (dbg : bool) (u : url) : list (list N) :=
+  match api_of_model dbg u with Some l => l | None => [] end.
+
+(* the match of C01_statement, with the one outcome pair the Standard does not know made explicit *)
+Definition statement_shape (dbg : bool) (shs : spec_host -> list N) (m : pres url) (s : parse_outcome) : Prop :=
+  match m, s with
+  | POk u, BDone su => api_total dbg u = spec_api_list shs su
+  | PErr Overflow, BDone su => U32_MAX_P < nlen (get_href shs su)
+  | PErr _, BFailure _ => True
+  | _, _ => False
+  end.
+
+Lemma agree_good_shape dbg shs m s : agree_good dbg shs m s -> statement_shape dbg shs m s.
+Proof.
+  unfold agree_good, statement_shape. destruct s as [su|uf|].
+  - intros [_ [[-> B]|(u & -> & R)]]; [exact B|]. unfold api_total. rewrite (rel_api _ _ _ _ R). reflexivity.
+  - intros [e ->]. destruct e; exact I.
+  - intros [].
+Qed.
+
+Theorem statement_instance dbg idna : IdnaOK idna -> forall input base sbase,
+  usv_list input -> full_rel dbg spec_host_serializer base sbase -> known_c01 base input = 0 ->
+  statement_shape dbg spec_host_serializer
+    (parse_url dbg (host_parse idna) host_parse_opaque host_display None base input)
+    (spec_basic_url_parse (spec_host_parser idna) input sbase).
+Proof.
+  intros HI input base sbase Hu Hb Hk. apply agree_good_shape.
+  exact (proj1 (statement_all_model dbg idna HI input base sbase Hu Hb Hk)).
+Qed.
